@@ -114,6 +114,9 @@ def upload(n, crc, sized, how, fault=None):
                 sx.prove(fp.size == (n if sized else None), "announced size", tag + "/size")
         finally:
             fp.close()
+            nsent = len(rig.sent)
+            fp.close()                       # closing a closed stream has no effect (io contract)
+            sx.prove(len(rig.sent) == nsent, "second close() sent another frame", tag + "/close-twice")
     except ValueError as e:
         # not an SDO error: the stream machinery itself gave up (still no wrong data, but an undisturbed transfer
         # must succeed)
